@@ -18,7 +18,7 @@ E1C_CONTAINERS = {
 }
 
 
-@rule("E1c", "ANNOUNCE-FIRST: a statement announces itself to the visitor before its operands are visited (hoisted calls land in their own statement)", ["C05", "C04", "C06", "C01", "C02"], floor=15, default_props=["C05", "C04", "C01"])
+@rule("E1c", "ANNOUNCE-FIRST: a statement announces itself to the visitor before its operands are visited (hoisted calls land in their own statement)", ["C05", "C04", "C06", "C01", "C02", "C15"], floor=15, default_props=["C05", "C04", "C01", "C15"])
 def e1c(ctx: Ctx):
     em = emitmodel(ctx)
     py = em.py
@@ -220,3 +220,90 @@ def p9(ctx: Ctx):
                             line=s.lineno,
                             props=["C03", "C20"] if "data" in name else ["C04"],
                         )
+
+
+# ---------------------------------------------------------------------------
+# E1e CURRENT-STATEMENT
+
+
+def _must_store_self_attr(body: List[ast.stmt], attr: str, assigned: bool = False) -> Tuple[Optional[bool], bool]:
+    """(state when the block falls through - None if it never does -, every exit reached so far has the attribute stored)."""
+    exits_ok = True
+    cur: Optional[bool] = assigned
+    for st in body:
+        if cur is None:
+            break
+        if isinstance(st, (ast.Return, ast.Raise)):
+            if isinstance(st, ast.Return) and not cur:
+                exits_ok = False
+            cur = None
+            break
+        if isinstance(st, ast.Assign) and any(is_self_attr(t) and t.attr == attr for t in st.targets):
+            cur = True
+            continue
+        if isinstance(st, ast.If):
+            a, ea = _must_store_self_attr(st.body, attr, cur)
+            b, eb = _must_store_self_attr(st.orelse, attr, cur)
+            exits_ok = exits_ok and ea and eb
+            cur = None if (a is None and b is None) else (a if b is None else b if a is None else (a and b))
+            continue
+        if isinstance(st, (ast.For, ast.While, ast.With, ast.Try)):
+            for sub in ast.walk(st):
+                if isinstance(sub, ast.Return) and not cur:
+                    exits_ok = False
+    return cur, exits_ok
+
+
+@rule("E1e", "CURRENT-STATEMENT: a pass that attaches hoisted calls to `the current statement` records that statement on every path through visit_statement, before anything returns", ["C05", "C04", "C01", "C15"], floor=1)
+def e1e(ctx: Ctx):
+    py = pyfacts(ctx)
+    n = 0
+    for cn, ci in sorted(py.mod("coco/b09/visitors.py").classes.items()):
+        vs, ve = ci.methods.get("visit_statement"), ci.methods.get("visit_exp")
+        if vs is None or ve is None:
+            continue
+        # the attribute through which visit_exp reaches the statement (`self._statement.transform_function_to_call(exp)`)
+        attrs = {c.func.value.attr for c in ast.walk(ve) if isinstance(c, ast.Call) and isinstance(c.func, ast.Attribute) and isinstance(c.func.value, ast.Attribute) and is_self_attr(c.func.value)}
+        for attr in sorted(attrs):
+            if not any(isinstance(a, ast.Assign) and any(is_self_attr(t) and t.attr == attr for t in a.targets) for a in ast.walk(vs)):
+                continue
+            n += 1
+            cur, exits_ok = _must_store_self_attr(vs.body, attr)
+            ok = exits_ok and (cur is None or cur)
+            ctx.ob(f"{cn}.visit_statement:{attr}", ok, "" if ok else f"`{cn}.visit_statement` can return without storing the statement in `self.{attr}`: the next `visit_exp` attaches its hoisted procedure call to the statement visited before (the call runs with stale operands, in the wrong place) or fails on None", file="coco/b09/visitors.py", line=vs.lineno, witness="" if ok else "10 X=3:A=POINT(INT(X/2),7)")
+    ctx.need(n >= 1, "visitors", "no pass that keeps a current statement for visit_exp found (expected the functional-expression patcher)")
+
+
+# ---------------------------------------------------------------------------
+# E21 CALL-ASSIGNMENT
+
+
+@rule("E21", "CALL-ASSIGNMENT: an assignment whose right-hand side became a procedure call prints that call and nothing in front of it (no `LET`, no `target :=`) - decided by interpreting the emitter on concrete assignments", ["C07", "C01"], floor=2)
+def e21(ctx: Ctx):
+    from .absint import Const as _C, Seq as _S, alts_of as _alts, interp as _interp
+    from .rules_abs import _flatten
+
+    I = _interp(ctx)
+    py = pyfacts(ctx)
+    r = py.resolve_method("BasicAssignment", "basic09_text")
+    ctx.need(r is not None, "BasicAssignment.basic09_text", "not found")
+
+    def mk(cls, *a_, **k_):
+        return I.construct(cls, list(a_), k_, r[1].lineno, "BasicAssignment")
+
+    for let in (False, True):
+        target = mk("BasicVar", _C("A"))
+        fe = mk("BasicFunctionalExpression", _C("RUN ecb_int"), mk("BasicExpressionList", _S([mk("BasicVar", _C("B"))], None)))
+        sv = py.resolve_method("BasicFunctionalExpression", "set_var")
+        ctx.need(sv is not None, "BasicFunctionalExpression.set_var", "not found")
+        I.call_function(sv[1], [fe, target], self_obj=fe, owner=sv[0].name)
+        st = mk("BasicAssignment", target, fe, let_kw=_C(let))
+        t = I.call_function(r[1], [st, _C(0)], self_obj=st, owner=r[0].name)
+        texts = ["".join(p_ if isinstance(p_, str) else "{}" for p_ in _flatten(a_)) for a_ in _alts(t)]
+        key = f"BasicAssignment[{'LET ' if let else ''}A=INT(B)]"
+        if len(texts) != 1 or "{" in texts[0]:
+            ctx.undecided(key, f"the text of the assignment could not be evaluated ({texts})", file=r[0].module, line=r[1].lineno)
+            continue
+        tx = texts[0].strip()
+        ok = tx.upper().startswith("RUN ") and ":=" not in tx and "LET" not in tx.upper().split("RUN")[0]
+        ctx.ob(key, ok, "" if ok else f"`{'LET ' if let else ''}A=INT(B)` is emitted as `{tx}`: the hoisted call already stores the result in the target, anything in front of / around `RUN ...` is not a BASIC09 statement", file=r[0].module, line=r[1].lineno, witness="" if ok else "10 LET A=INT(B)")
